@@ -99,6 +99,6 @@ pub fn units(quick: bool) -> Vec<Unit> {
     add_outer!(o_cumulative2); add_outer!(o_alma2); add_outer!(o_welford_rolling); add_outer!(o_supersmoother2); add_outer!(o_cybercycle); add_outer!(o_roc1);
     macro_rules! add_comb { ($f:ident) => { for op in 0..4usize { for pair in 0..4usize { u.push(unit!(format!("C01/static/{}/{}/pair#{pair}", stringify!($f), crate::views::BINOPS[op]), $f(op, pair))); } } } }
     add_comb!(c_gte); add_comb!(c_lte); add_comb!(c_tanh_gte); add_comb!(c_sma2); add_comb!(c_ema2); add_comb!(c_min2);
-    for x in u.iter_mut() { x.path_cap = if quick { 800 } else { 5000 }; x.budget_s = if quick { 5.0 } else { 120.0 }; x.branch_nl_timeout_ms = Some(300); }
+    for x in u.iter_mut() { x.path_cap = if quick { 800 } else { 5000 }; x.budget_s = if quick { 3.0 } else { 120.0 }; x.branch_nl_timeout_ms = Some(300); }
     u
 }
